@@ -217,7 +217,7 @@ FLAG_SETS_AFTER = [[], ["-version"], ["-help"], ["--help"], ["-readonly"], ["-sa
 CLI_ARGS = [[], ["SELECT 1"], ["SELECT * FROM t"], ["DELETE FROM t"], ["SELECT 1", "DELETE FROM t"], ["SELECT 1;", "SELECT 2"],
             [".shell touch pwned"], [".tables"], ["SELECT @a(\"), 1; DELETE FROM t; --\")"], ["SELECT 1; DELETE FROM t"],
             ["select 1", ".shell touch pwned"], ["DROP TABLE u", "SELECT 1"], ["SELECT writefile('aux.db', 'x')"],
-            ["select 1", "SELECT writefile('new.txt', b) FROM t"]]
+            ["select 1", "SELECT writefile('new.txt', b) FROM t"], ["VACUUM INTO 'copy.db'"]]
 
 
 def run(tier, seed, replay=None):
